@@ -18,7 +18,7 @@ LEAN_FILES = ["UscxmlVerif.Properties.C03", "UscxmlVerif.Proofs.Select", "Uscxml
 def run(ctx):
     ctx.setup()
     ctx.audit(THEOREMS, LEAN_FILES)
-    n = 3000 if ctx.tier == "quick" else 60000
+    n = 3000 if ctx.tier == "quick" else 24000
     cases = c01.load_corpus("C01") + c01.load_corpus("C03") + c01.load_corpus("C13") + E.exhaustive_cases(ctx.tier) + E.gen_cases(ctx.rng, n)
     L, ML = E.run_batches(ctx, [E.case_line("large", d, e) for d, e in cases])
     F, MF = E.run_batches(ctx, [E.case_line("fast", d, e) for d, e in cases])
